@@ -352,6 +352,35 @@ theorem feature_table_total :
     (∀ k ∈ structuralKeys, keyCovered k = true) ∧ (∀ e ∈ mflTable, rowOk e = true) := by
   decide
 
+/-- A feature table whose entries freeze their arguments is faithful for every statement, however many
+    values it expands to: each entry performs the request of its own key. -/
+theorem frozenTable_faithful {κ : Type} (keys : List κ) (f : κ → Req) :
+    ∀ e ∈ frozenTable keys f, e.2 = f e.1 := by
+  intro e he
+  simp only [frozenTable, List.mem_map] at he
+  obtain ⟨k, _, rfl⟩ := he
+  rfl
+
+/-- … in particular `TRANSITS(counts, depots)`: entry (count, DEPOT) is `set_transit_compartments(n=count)`,
+    entry (count, NODEPOT) is `set_transit_compartments(n=count+1, keep_depot=False)`, for all count lists, and
+    this is the request `reqOfKey` assigns to the key. -/
+theorem transits_table_faithful (counts : List Nat) (depots : List Bool) :
+    ∀ e ∈ frozenTable (transitKeys counts depots) reqOfTransitKey,
+      reqOfKey "TRANSITS" (if e.1.2 then "DEPOT" else "NODEPOT") e.1.1 = some e.2 := by
+  intro e he
+  rw [frozenTable_faithful _ _ e he]
+  obtain ⟨⟨c, d⟩, r⟩ := e
+  cases d <;> simp [reqOfKey, reqOfTransitKey]
+
+/-- A table whose entries read the loop variables late is faithful only for its last key: the witness is
+    `TRANSITS([0,1,3],*)`, where the entry (1, DEPOT) performs `set_transit_compartments(4, keep_depot=False)`;
+    a single-valued statement is unaffected. -/
+theorem lateTable_unfaithful_witness :
+    (lateTable (transitKeys [0, 1, 3] [true, false]) reqOfTransitKey).lookup (1, true) = some (.transits 4 false) ∧
+    reqOfTransitKey (1, true) = .transits 1 true ∧
+    lateTable (transitKeys [3] [true]) reqOfTransitKey = frozenTable (transitKeys [3] [true]) reqOfTransitKey := by
+  decide
+
 /-- The lag-time couplings that `frame` tolerates are the ones modelsearch declares unsupported. -/
 theorem lag_couplings_declared :
     (["LAGTIME", "ON"], ["TRANSITS"]) ∈ notSupportedCombo ∧
